@@ -81,9 +81,32 @@ func openSession(repo, vdir, tier string, seed int) (*session, error) {
 	if err != nil {
 		return nil, err
 	}
-	cf, err := parseContractFile(filepath.Join(repo, "zz_verif_contracts.go"))
-	if err != nil {
-		return nil, err
+	files, _ := filepath.Glob(filepath.Join(repo, "zz_verif_*.go"))
+	sort.Strings(files)
+	var cf *ContractFile
+	for _, f := range files {
+		one, err := parseContractFile(f)
+		if err != nil {
+			return nil, err
+		}
+		if cf == nil {
+			cf = one
+			continue
+		}
+		for _, k := range one.Order {
+			if _, dup := cf.Funcs[k]; dup {
+				return nil, fmt.Errorf("%s: duplicate contract for %s", f, k)
+			}
+			cf.Funcs[k] = one.Funcs[k]
+			cf.Order = append(cf.Order, k)
+		}
+		cf.Lemmas = append(cf.Lemmas, one.Lemmas...)
+		if one.Pkg != nil {
+			cf.Pkg = one.Pkg
+		}
+	}
+	if cf == nil {
+		return nil, fmt.Errorf("no contract files (zz_verif_*.go) in %s", repo)
 	}
 	pre, err := loadPrelude(preludeFiles(vdir))
 	if err != nil {
